@@ -398,11 +398,16 @@ def run(ctx):
                        "graphs with cycles/sharing through datum labels; mutated texts through model reader, native reader and (scheme read); round 3: char-, "
                        "bytevector- and number-heavy trees with vector tails after the dot; (scheme write) character text vs its model; the libc hypotheses of the "
                        "flonum theorem on every generated finite double; the compound theorem's instance (fuel height+2) on every modelled datum in the extracted "
-                       "model; exact ratio/complex tokens (writer text + mutations) through the extracted read_num_token and the native reader")
+                       "model; exact ratio/complex tokens (writer text + mutations) through the extracted read_num_token and the native reader; round 4: the text of (scheme write) "
+                       "of every modelled datum vs the extracted model swrite of lib/srfi/38.scm's wr-one byte for byte, and the scheme_write_roundtrip / writers_agree "
+                       "instances in the extracted model; escaped-chars of 38.scm and the constants of the reader's strtod path regenerated")
     # ------------------------------------------------------------------ (G)
     d = ctx.build("default")
     from gen import c08_tables
     c08_tables.regen(ctx, d)
+    # round 4: the library writer's character-name table (lib/srfi/38.scm) and the constants of the reader's strtod path (sexp.c)
+    from gen import c08_lib38
+    c08_lib38.regen(ctx, d, getattr(ctx, "c08_char_names", []))
     # ------------------------------------------------------------------ (T)
     ctx.coq_obligations("Properties_C08")
     exe = ctx.extract("C08")
@@ -435,6 +440,37 @@ def run(ctx):
                      (('D', 0x3FF8000000000000), ('D', 0xC000000000000000)), (('D', 0x7FF0000000000000), ('D', 0xFFF0000000000000)), (('D', 0), ('D', 0x7FF0000000000000)),
                      (('D', 0x3FF0000000000000), ('D', 0x7FF8000000000000)), (('D', 0x7FF8000000000000), ('D', 0x3FF0000000000000)), (('D', 0x3FB999999999999A), ('D', 0x8000000000000000))]:
         data.append(('X', re_, im_))
+    # round 4, directed: LONG lists / vectors / bytevectors / strings / symbols (loop bounds, the growth points of the reader's string and
+    # symbol buffers: 128 * 2^k bytes with an escape or a multi-byte character across the boundary, string-port buffers) and deep nesting
+    long_all = ctx.thorough or bool(os.environ.get("C08_DIRECTED_ALL"))     # the thorough tier's directed sizes in a quick run (for validation)
+    def mk_list(items, tail=('N',)):
+        for it in reversed(items):
+            tail = ('P', it, tail)
+        return tail
+    for n in [15, 16, 17, 31, 32, 33, 63, 64, 65, 100, 127, 128, 129, 255, 256, 257] + ([600] if long_all else []):
+        items = [('I', i) for i in range(n)]
+        data.append(mk_list(items))
+        data.append(mk_list(items, ('I', n)))
+        data.append(('V', items))
+        data.append(('V', [('C', 0x3BB + i) for i in range(n)]))
+        data.append(('B', bytes(i % 256 for i in range(n))))
+    for n in ([62, 63, 64, 123, 124, 125, 126, 127, 128, 129, 130, 252, 253, 254, 255, 256, 257, 510, 511, 512, 513, 1022, 1023, 1024, 1025] if not long_all else
+              [60, 61, 62, 63, 64, 120, 121, 122, 123, 124, 125, 126, 127, 128, 129, 130, 250, 251, 252, 253, 254, 255, 256, 257, 508, 509, 510, 511, 512, 513,
+               1020, 1021, 1022, 1023, 1024, 1025]) + ([2044, 2045, 2046, 2047, 2048, 2049, 4090, 4091, 4092, 4093, 4094, 4095, 4096, 4097, 8190, 8191, 8192, 8193] if long_all else []):
+        data.append(('S', b"a" * n))
+        data.append(('S', b"a" * (n - 1) + b"\n"))                    # an escape as the last character before the boundary
+        data.append(('S', b"a" * (n - 2) + "\u20ac".encode("utf-8")))   # a 3-byte character across it
+        data.append(('S', b"a" * (n - 1) + b"\x01" + b"b" * 5))        # \x1; across it
+        data.append(('Y', b"s" * n))
+        data.append(('Y', b"s" * (n - 1) + b"|" + b"t" * 3))           # barred, an escaped bar across it
+        data.append(('Y', b"s" * (n - 2) + "\u03bb".encode("utf-8") + b"t"))
+    for depth in [10, 50] + ([200] if long_all else []):
+        a, v, m = ('I', 1), ('Y', b"x"), ('S', b"s")
+        for k in range(depth):
+            a = ('P', a, ('N',))
+            v = ('V', [v])
+            m = ('P', ('V', [m, ('C', 40 + k % 80)]), ('I', k)) if k % 2 else ('V', [('P', m, ('N',))])
+        data += [a, v, m]
     for b in seeds:
         data.append(('D', b))
     for _ in range(n_chars):
@@ -454,6 +490,12 @@ def run(ctx):
     check_label_texts(ctx, d, exe, 600 if quick else 20000)
     check_texts(ctx, d, exe, data, 3000 if quick else 15000)
     check_number_texts(ctx, d, exe, data, 500 if quick else 10000)
+    big = (not quick) or bool(os.environ.get("C08_DIRECTED_ALL"))      # thorough volumes of the round-4 streams (also in a quick run, for validation)
+    check_variant_texts(ctx, d, data, 10000 if big else 800)
+    check_sread_texts(ctx, d, exe, data, 4000 if big else 300)
+    ctx.assume("readers_agree_quoted_partial: the library reader works on characters (read-char / write-char on UTF-8 ports); its model passes bytes >= 0x80 "
+               "outside an escape through unchanged, which is what decoding and re-encoding a valid UTF-8 sequence does (the port decoder is C12's subject); "
+               "the (K) runs only feed valid UTF-8 texts")
     ctx.assume("hypotheses of flonum_roundtrip_given / datum_roundtrip_flonums (record libc_flonum, coq/C08/FloProofs.v): printf %.{15,16,17}lg of a finite double "
                "has the shape [-]digits[.digits][e(+|-)digits] with '-' iff the sign bit is set and an integer part that (double)long + %.0f reproduce; sscanf %lg "
                "agrees with strtod on such texts; strtod(-u) = -strtod(u) and strtod(u) has the sign bit clear; strtod is a function of the decimal number denoted "
@@ -523,8 +565,9 @@ def check_trees(ctx, d, exe, data):
     # (K inner, round 3) the model of (scheme write)'s character arm; the hypotheses of flonum_roundtrip_given on this libc, one
     # finite double at a time; the compound theorem's instance on every modelled datum (model reader with fuel height+2 on the
     # model writer's text followed by ")")
-    char_idx = [i for i, x in enumerate(data) if x[0] == 'C']
-    swrite_text = dict(zip(char_idx, ctx.run_model(exe, ["swritec " + encs[i] for i in char_idx])))
+    # round 4: the model of the WHOLE library writer (C08/Model4.v swrite = lib/srfi/38.scm wr-one on a tree) on every modelled datum
+    sw_idx = [i for i, m in enumerate(modelled) if m]
+    swrite_text = dict(zip(sw_idx, ctx.run_model(exe, ["swrite " + encs[i] for i in sw_idx])))
     flo_idx = [i for i, x in enumerate(data) if x[0] == 'D' and ((x[1] >> 52) & 0x7FF) != 0x7FF]
     for i, a in zip(flo_idx, ctx.run_model(exe, ["flohyp " + encs[i] for i in flo_idx])):
         if a != "OK":
@@ -594,10 +637,10 @@ def check_trees(ctx, d, exe, data):
         # ---- library writer, characters: model text of lib/srfi/38.scm's character arm vs (scheme write)
         if i in swrite_text and swrite_text[i] != t2:
             if verdicts[2][0] and verdicts[3][0]:
-                ctx.broken("correspondence:scheme-writer:char", "model of (scheme write)'s character arm and the library differ but the text still reads back: "
+                ctx.broken("correspondence:scheme-writer:" + cls, "model of (scheme write) (lib/srfi/38.scm wr-one) and the library differ but the text still reads back: "
                            "datum %s model=%s impl=%s" % (encs[i], swrite_text[i], t2))
             else:
-                ctx.violation("scheme-write:char", input=encs[i], scheme=scm(x), expected_text_hex=swrite_text[i], observed_text_hex=t2,
+                ctx.violation("scheme-write:%s" % cls, input=encs[i], scheme=scm(x), expected_text_hex=swrite_text[i], observed_text_hex=t2,
                               read_back=r21, replay=rp("r7:write", "native-read"))
                 continue
         # ---- the four round trips
@@ -1008,6 +1051,232 @@ def check_texts(ctx, d, exe, data, n):
             # (then the round trip is at stake) otherwise only the correspondence is
             ctx.broken("correspondence:reader", "model reader and sexp_read_raw differ on text %r (hex %s): model=%s native=%s" % (t.decode("utf-8", "replace"), t.hex(), m, nat))
     ctx.note("mutated texts: the model reader is compared with the native reader only ((scheme read) differs from it on malformed input by design: error kinds, .5 inside lists, #\\x names); %d texts" % len(texts))
+
+
+# ----------------------------------------------------------------------------- round 4: other spellings of the same datum (R7RS 7.1), both readers
+PLAIN_SYM = _re.compile(rb"^[a-z!$%&*/:<=>?^_~][a-z0-9!$%&*/:<=>?^_~+.@-]*$")
+CHAR_NAMES_R7RS = {7: "alarm", 8: "backspace", 127: "delete", 27: "escape", 10: "newline", 0: "null", 13: "return", 32: "space", 9: "tab"}
+STR_MNEMONIC = {7: "\\a", 8: "\\b", 9: "\\t", 10: "\\n", 13: "\\r", 34: "\\\"", 92: "\\\\", 124: "\\|"}
+
+
+def variant_text(rng, d, feats):
+    """another R7RS external representation of the datum d (None when d has a leaf this writer does not spell).  The value every
+    reader must produce is d itself: the oracle is R7RS section 7.1 / 2.x, not either implementation."""
+    def ws(must):
+        r = rng.random()
+        if r < 0.55:
+            return " " if must else ""
+        if r < 0.7:
+            feats.add("spaces"); return rng.choice(["  ", "\t", "\n", " \n ", "\r\n"])
+        if r < 0.8:
+            feats.add("line-comment"); return " ; c ) \" | #\n"
+        if r < 0.9:
+            feats.add("block-comment"); return " #| x #| y |# ) |# "       # '#' is not a delimiter: a space before it
+        feats.add("datum-comment"); return " #;(1 . \"a\") "
+    def hexs(n):
+        h = "%x" % n
+        r = rng.random()
+        if r < 0.3:
+            h = h.upper(); feats.add("hex-upper")
+        elif r < 0.45:
+            h = "00" + h; feats.add("hex-leading-zeros")
+        return h
+    def chars_of(bs):
+        try:
+            return [ord(c) for c in bytes(bs).decode("utf-8")]
+        except UnicodeDecodeError:
+            return None
+    def delimited(cps, q):
+        out = []
+        for c in cps:
+            r = rng.random()
+            if q == '"' and c not in (32, 9) and rng.random() < 0.08:
+                # \<intraline white space><line ending><intraline white space> stands for nothing (R7RS 6.7); the next character is not white space
+                feats.add("line-continuation"); out.append(rng.choice(["\\\n", "\\ \t\n   ", "\\\n\t "]))
+            if c in STR_MNEMONIC and not (q == "|" and c in (34, 92)) and (c in (34, 92, 124) and r < 0.6 or r < 0.4):     # R7RS: no \\ or \" inside |...|
+                out.append(STR_MNEMONIC[c]); feats.add("mnemonic-escape")
+            elif r < 0.25 or c == 92 or c == ord(q) or c < 32 or c == 127:
+                out.append("\\x%s;" % hexs(c)); feats.add("hex-escape")
+            else:
+                out.append(chr(c))
+        return q + "".join(out) + q
+    k = d[0]
+    if k == 'T':
+        feats.add("long-boolean"); return rng.choice(["#t", "#true"])
+    if k == 'F':
+        feats.add("long-boolean"); return rng.choice(["#f", "#false"])
+    if k == 'N':
+        return "(" + ws(False) + ")"
+    if k == 'I':
+        n, r = d[1], rng.random()
+        sg = "-" if n < 0 else ("+" if rng.random() < 0.3 else "")
+        if r < 0.4:
+            return sg + "%d" % abs(n)
+        if r < 0.55:
+            feats.add("#d"); return "#d" + sg + "%d" % abs(n)
+        if r < 0.75:
+            feats.add("#x"); return "#x" + sg + hexs(abs(n))
+        if r < 0.85:
+            feats.add("#b"); return "#b" + sg + bin(abs(n))[2:]
+        if r < 0.93:
+            feats.add("#o"); return "#o" + sg + oct(abs(n))[2:]
+        feats.add("#e"); return "#e" + sg + "%d" % abs(n)
+    if k == 'C':
+        c, r = d[1], rng.random()
+        if c in CHAR_NAMES_R7RS and r < 0.5:
+            feats.add("char-name"); return "#\\" + CHAR_NAMES_R7RS[c]
+        if (r < 0.75 and (c > 32 and c != 127)) and not (0xD800 <= c < 0xE000):
+            feats.add("char-raw"); return "#\\" + chr(c)
+        feats.add("char-hex"); return "#\\x" + hexs(c)
+    if k == 'S':
+        cps = chars_of(d[1])
+        return None if cps is None else delimited(cps, '"')
+    if k == 'Y':
+        cps = chars_of(d[1])
+        if cps is None:
+            return None
+        if PLAIN_SYM.match(bytes(d[1])) and rng.random() < 0.5:
+            return bytes(d[1]).decode()
+        feats.add("bar-symbol"); return delimited(cps, "|")
+    if k == 'B':
+        def el(b):
+            r = rng.random()
+            if r < 0.5:
+                return "%d" % b
+            if r < 0.8:
+                return "#x" + hexs(b)
+            return rng.choice(["#d%d" % b, "#b" + bin(b)[2:], "#o" + oct(b)[2:], "+%d" % b])
+        return "#u8(" + ws(False) + "".join(el(b) + ws(True) for b in d[1]) + ")"
+    if k == 'V':
+        items = [variant_text(rng, x, feats) for x in d[1]]
+        if any(i is None for i in items):
+            return None
+        return "#(" + ws(False) + "".join(i + ws(True) for i in items) + ")"
+    if k == 'P':
+        if d[1] == ('Y', b"quote") and d[2][0] == 'P' and d[2][2] == ('N',) and rng.random() < 0.7:
+            inner = variant_text(rng, d[2][1], feats)
+            feats.add("quote-abbreviation")
+            return None if inner is None else "'" + inner
+        items, t = [], d
+        while t[0] == 'P' and (not items or rng.random() < 0.85):
+            items.append(variant_text(rng, t[1], feats)); t = t[2]
+        if any(i is None for i in items):
+            return None
+        body = "(" + ws(False) + "".join(i + ws(True) for i in items)
+        if t == ('N',) and rng.random() < 0.8:
+            return body + ")"
+        tail = variant_text(rng, t, feats)       # also (a . (b c)) and (a . ())
+        if tail is None:
+            return None
+        if t[0] in 'PN':
+            feats.add("dot-before-list")
+        return body + ". " + ws(False) + tail + ws(False) + ")"
+    return None
+
+
+def check_variant_texts(ctx, d, data, n):
+    """(K outer, spec oracle) 'the native reader and (scheme read) accept the same texts and yield equal data' beyond the texts the
+    two writers emit: other R7RS spellings of generated data (long booleans, radix / exactness prefixes, explicit +, character
+    names / raw / x-hex with upper case and leading zeros, string and |symbol| hex and mnemonic escapes, white space, line / block /
+    datum comments between tokens, a dot before a list tail, 'x) must read as that datum in BOTH readers."""
+    rng = ctx.rng
+    pool = [x for x in data if not has(x, lambda t: t[0] in 'DQX')]
+    directed = [('P', ('Y', b"quote"), ('P', ('Y', b"a"), ('N',))), ('T',), ('F',), ('P', ('T',), ('P', ('F',), ('N',))), ('V', [('T',), ('F',)]),
+                ('C', 120), ('C', 88), ('C', 0x41), ('C', 0x3BB), ('C', 0x10FFFF), ('C', 32), ('C', 127), ('S', b"a\nb\tc\\d\"e|"), ('Y', b"a b|c\\d"), ('Y', b""),
+                ('B', bytes([0, 1, 127, 128, 255])), ('I', 0), ('I', -1), ('I', 255), ('I', 1 << 62), ('I', -(1 << 62)), ('I', (1 << 64) + 1), ('I', -(1 << 70)),
+                ('P', ('I', 1), ('P', ('I', 2), ('I', 3))), ('P', ('C', 40), ('P', ('C', 41), ('P', ('C', 59), ('N',)))),
+                # every UTF-8 width boundary inside a string / a symbol (hex escapes are re-encoded by the native reader: sexp_read_string)
+                ('S', "\x7f\x80\u07ff\u0800\uffff\U00010000\U0010ffff".encode("utf-8")), ('Y', "\x7f\x80\u07ff\u0800\uffff\U00010000\U0010ffff".encode("utf-8")),
+                ('S', "\x80".encode("utf-8")), ('S', "\u0800".encode("utf-8")), ('S', "\U00010000".encode("utf-8")), ('Y', "\x80".encode("utf-8"))]
+    cases, seen = [], set()
+    for x in directed * 6 + [rng.choice(pool) for _ in range(n)]:
+        feats = set()
+        t = variant_text(rng, x, feats)
+        if t is None or len(t) > 400:
+            continue
+        tb = t.encode("utf-8")
+        if tb in seen:
+            continue
+        seen.add(tb)
+        cases.append((x, tb, feats))
+    out = run_scheme(d, [(i, '(verif-text %d "%s")' % (i, tb.hex())) for i, (_, tb, _) in enumerate(cases)])
+    for i, (x, tb, feats) in enumerate(cases):
+        ctx.count(1, key=("variant", tb), nontrivial=not trivial(x))
+        f = out.get(i)
+        rp = ("printf '%%s' '%s' | xxd -r -p > /tmp/c08-text; chibi-scheme -e '(import (chibi io))' -p '(call-with-input-file \"/tmp/c08-text\" read)'; "
+              "chibi-scheme -e '(import (chibi io) (scheme read))' -p '(call-with-input-file \"/tmp/c08-text\" read)'   # expected both: %s" % (tb.hex(), scm(x)))
+        if f is None or len(f) < 2:
+            ctx.violation("variant-text:reader-%s" % ("crash" if f and f[0].startswith("CRASH") else "no-answer"), input=tb.hex(), text=tb.decode("utf-8", "replace"),
+                          observed=(f[0] if f else None), replay=rp)
+            continue
+        ctx.cov["traces_validated_against_impl"] += 1
+        lc = klass(x) if klass(x) not in ("pair", "vector") else "nested"
+        for who, got in (("native-read", f[0]), ("scheme-read", f[1])):
+            if not compare(enc(x), got)[0]:
+                ctx.violation("variant-text:%s:%s" % (who, lc), input=tb.hex(), text=tb.decode("utf-8", "replace"), features=sorted(feats), expected=enc(x), observed=got,
+                              other_reader=(f[1] if who == "native-read" else f[0]), replay=rp)
+
+
+# ----------------------------------------------------------------------------- round 4: the library reader's string / |symbol| arm (C08/SRead.v) vs (scheme read)
+def check_sread_texts(ctx, d, exe, data, n):
+    """(K inner) extracted sread_quoted (model of lib/srfi/38.scm read-delimited / read-escape-sequence / read-number 16) against
+    (scheme read) on (1) the native writer's text of generated strings and symbols that need bars, (2) other spellings of them (hex and
+    mnemonic escapes), (3) synthetic quoted texts over an alphabet aimed at the case split of the model: every escape letter, x / X,
+    label characters (digits, a-f, A-F, i, + -), one or two '/' and '@', '#' at the start of the digits, missing ';', empty digits,
+    values at 0x7F/0x80, the surrogate range and 0x10FFFF/0x110000, the other quote character, a terminal missing."""
+    rng = ctx.rng
+    texts, origin = [], {}
+    pool = [x for x in data if x[0] in 'SY']
+    for x in (pool if len(pool) <= n else rng.sample(pool, n)):
+        try:
+            bytes(x[1]).decode("utf-8")
+        except UnicodeDecodeError:
+            continue
+        for _ in range(2):
+            t = variant_text(rng, x, set())
+            if t is not None and t[:1] in ('"', '|') and "\\\n" not in t:
+                texts.append(t.encode("utf-8"))
+    pieces = ["a", "\\", "\"", "|", "\\x", "\\X", ";", "0", "4", "1", "b", "f", "F", "g", "i", "+", "-", "/", "@", "#", "\\n", "\\t", "\\a", "\\b", "\\r", " ", "e", "λ",
+              "\\x41;", "\\x7f;", "\\x80;", "\\x7ff;", "\\x800;", "\\xd7ff;", "\\xd800;", "\\xdfff;", "\\xe000;", "\\xffff;", "\\x10000;", "\\x10ffff;", "\\x110000;", "\\x;",
+              "\\x#x41;", "\\x4/1;", "\\x4/1/2;", "\\x4@1;", "\\x+41;", "\\x-1;", "\\xi;", "\\x41", "\\x41 ;", "\\\\", "\\\"", "\\|", "\\q", "\\(", "\;"]
+    for _ in range(n):
+        q = rng.choice(['"', '"', '|'])
+        body = "".join(rng.choice(pieces) for _ in range(rng.choice([1, 2, 3, 5, 8])))
+        texts.append((q + body + (q if rng.random() < 0.9 else "")).encode("utf-8"))
+    # the character arm (C08/SReadChar.v): the native writer's text of generated characters, other spellings, synthetic #\... texts
+    cpool = [x for x in data if x[0] == 'C']
+    csample = cpool if len(cpool) <= n else rng.sample(cpool, n)
+    for h in ctx.run_model(exe, ["write " + enc(x) for x in csample]):
+        texts.append(bytes.fromhex(h))
+    for x in csample:
+        t = variant_text(rng, x, set())
+        if t is not None:
+            texts.append(t.encode("utf-8"))
+    cpieces = ["x", "X", "4", "1", "f", "F", "g", "a", "l", "r", "m", " ", "\n", "(", ")", ";", "\"", "|", "{", "}", "+", "-", "/", "i", "#", "\\", "λ", "alarm", "ALARM", "Space", "nul",
+               "null", "newline", "NewLine", "tab", "x41", "X41", "x110000", "x10ffff", "xd7ff", "xd800", "xdfff", "xe000", "x0", "x00041", "xg", "x4g", "delete", "del", "escape", "return", "backspace", "altmode", "linefeed"]
+    for _ in range(n):
+        texts.append(("#\\" + "".join(rng.choice(cpieces) for _ in range(rng.choice([1, 1, 2, 3])))).encode("utf-8"))
+    texts = sorted(set(texts))
+    model = ctx.run_model(exe, ["sreadq " + t.hex() for t in texts])
+    out = run_scheme(d, [(i, '(verif-text %d "%s")' % (i, t.hex())) for i, t in enumerate(texts)])
+    compared = 0
+    for i, t in enumerate(texts):
+        m, f = model[i], out.get(i)
+        ctx.count(1, key=("sread", t), nontrivial=True)
+        rp = "printf '%%s' '%s' | xxd -r -p > /tmp/c08-text; chibi-scheme -e '(import (chibi io) (scheme read))' -p '(call-with-input-file \"/tmp/c08-text\" read)'" % t.hex()
+        if f is None or len(f) < 2:
+            ctx.violation("sread-text:reader-%s" % ("crash" if f and f[0].startswith("CRASH") else "no-answer"), input=t.hex(), text=t.decode("utf-8", "replace"),
+                          observed=(f[0] if f else None), replay=rp)
+            continue
+        ctx.cov["traces_validated_against_impl"] += 1
+        if m.startswith("ERR Unmodelled"):
+            continue
+        compared += 1
+        mm = "ERR" if m.startswith("ERR") else ("TRAIL" if m.endswith(" TRAIL") else m)
+        if mm != f[1]:
+            ctx.broken("correspondence:scheme-reader:" + ("char" if t[:2] == b"#\\" else "quoted"), "model sread_atom (lib/srfi/38.scm read-delimited / #\\ arm) and (scheme read) differ on text %r (hex %s): model=%s library=%s native=%s"
+                       % (t.decode("utf-8", "replace"), t.hex(), m, f[1], f[0]))
+    ctx.note("library reader's string / |symbol| / character arms: %d texts, %d inside the model" % (len(texts), compared))
 
 
 # ----------------------------------------------------------------------------- exact number tokens: model of sexp_read_number's ratio / complex arms vs native reader
